@@ -485,7 +485,7 @@ def one_packages_directory_per_project(F, res, rule="T12"):
             below_self = any("build/packages" in x.replace("\\", "/") for x in dep["strs"])
             if below_self:
                 bad.append("line %s: the dependency is looked for in a build/packages made here (%s)" % (t["ln"], sorted(dep["strs"])[:3]))
-    res.floor("recursive calls of assemble_graph", len(rec), 2)
+    res.floor("recursive calls of assemble_graph (one per kind of dependency, or one for both)", len(rec), 1)
     res.ob(rule, "assemble/one-packages-dir", "assemble_graph hands the project's packages directory down unchanged and looks fetched dependencies up in it",
            bool(carried) and not bad, where=f.loc(), how="directory parameter(s) carried unchanged: %s" % carried if carried and not bad else
            ("; ".join(bad) or "no Path parameter is handed on unchanged by the recursive calls: every package looks below itself"))
@@ -510,7 +510,7 @@ def one_entry_per_manifest(F, res, rule="T13"):
     if r is None:
         return
     f, fresh, other, decided_by = r
-    unit = [f] + [F.fns[c] for c in F.closures_of(f.path) if c in F.fns]
+    unit = [F.fns[q] for q in F.with_helpers(f.path, depth=2) if q in F.fns and F.fns[q].blocks]
     from lib import effects as EF
     adts = {e.get("adt") for u in unit for b in u.reachable() for st in u.blocks[b]["stmts"] if st["k"] == "assign"
             for pl in ([st["rv"].get("place")] if isinstance(st["rv"].get("place"), dict) else []) + [FA_op_place(st["rv"].get("op"))]
